@@ -91,6 +91,37 @@ theorem held_address_not_free (radius : Bool) (bits : Nat) (ins : List In) (sid 
   intro hmem
   exact (List.nodup_append.mp hW.pnd).2.2 a hmem a m1 rfl
 
+/-- (C01) the server never acknowledges an IPCP Configure-Request that carries an IP-Address option: it answers with a
+    Configure-Nak carrying the address it assigned, or — when it could assign none (pool exhausted) — with a
+    Configure-Reject; a peer can never pick its own address (which might be another session's).  From ANY state. -/
+theorem address_request_never_acknowledged (s : Srv) (m sid : Nat) :
+    ∀ o ∈ (step s (.ipcp m sid .creqIp)).2, ∀ sid' m', o ≠ .ipcpack sid' m' := by
+  intro o ho sid' m' he
+  subst he
+  simp only [step] at ho
+  split at ho
+  · simp at ho
+  · split at ho
+    · simp at ho
+    · rename_i x _ _
+      cases hip : x.ip <;> simp [hip] at ho
+
+/-- and what it offers instead is the session's own pool entry -/
+theorem address_offer_is_the_assigned_one (s : Srv) (m sid a sid' m' : Nat)
+    (h : Out.ipcpnak (some a) sid' m' ∈ (step s (.ipcp m sid .creqIp)).2) :
+    ∃ x, ownerGate s m sid = some x ∧ x.ip = some a := by
+  simp only [step] at h
+  split at h
+  · simp at h
+  · rename_i x hg
+    split at h
+    · simp at h
+    · cases hip : x.ip with
+      | none => simp [hip] at h
+      | some b =>
+        simp [hip] at h
+        exact ⟨x, hg, by rw [hip, h.1]⟩
+
 /-! ### the idle sweep against the clock -/
 
 open Bng.PppoeTimed in
@@ -140,6 +171,10 @@ theorem sweep_keeps_exactly_the_active (t : TSrv) (h sid : Nat) (x : Sess)
       · intro e; cases e
       · intro e; exact absurd e hn
     · exact ⟨fun _ => by omega, fun _ => rfl⟩
+
+/-- pool of one address: the second authenticated session gets none and its request for the first one's address is rejected -/
+example : (step (run (init true 30) [.padr 1 true, .pap 1 1 .good .accept, .padr 2 true, .pap 2 2 .good .accept])
+    (.ipcp 2 2 .creqIp)).2 = [.ipcprej 2 2] := by decide
 
 /-! non-vacuity: the monitor does speak — on the sweep — and is silent on an ordinary history -/
 example : (runBoth (init true 30) (initMon true 30)
